@@ -180,6 +180,39 @@ def reports(params, rnd, viol):
     return n
 
 
+def ids_across_phases(viol):
+    """one tester, two orders, reports in three phases with the helper's housekeeping calls in between: every ExecID is
+    used once, every order keeps its OrderID."""
+    sch = schema()
+    ft = FIXTester(sch)
+    a, b = fresh_order(), FIXNewOrderSingle("other", "US.F.TICKER", side=FOrdSide.SELL, price=10.0, qty=5.0)
+    exec_ids, order_ids = [], {}
+    plan = [(a, E.PENDING_NEW, S.PENDING_NEW, {}), (b, E.PENDING_NEW, S.PENDING_NEW, {}), "housekeeping",
+            (a, E.NEW, S.NEW, {"leaves_qty": 20.0}), (b, E.NEW, S.NEW, {"leaves_qty": 5.0}), "housekeeping",
+            (a, E.TRADE, S.PARTIALLY_FILLED, {"cum_qty": 5.0, "leaves_qty": 15.0, "last_qty": 5.0}),
+            (b, E.TRADE, S.FILLED, {"cum_qty": 5.0, "leaves_qty": 0.0, "last_qty": 5.0})]
+    for o in (a, b):
+        ft.order_register_single(o)
+        o.new_req()
+        ft.order_register_single(o)
+    for st in plan:
+        if st == "housekeeping":
+            ft.reset_messages()
+            continue
+        o, et, os_, kw = st
+        m = ft.fix_exec_report_msg(o, o.clord_id, et, os_, **kw)
+        o.process_execution_report(m)
+        exec_ids.append(m[17])
+        order_ids.setdefault(o.clord_id_root, set()).add(m[37])
+    if len(set(exec_ids)) != len(exec_ids):
+        record(viol, "ExecIDs %s: one is used twice (reports fabricated before and after reset_messages())" % exec_ids,
+               {"plan": "two orders, three phases, reset_messages() between phases"}, "report_fabrication")
+    if any(len(v) != 1 for v in order_ids.values()) or len({next(iter(v)) for v in order_ids.values()}) != len(order_ids):
+        record(viol, "OrderIDs per order %r: not one stable id per order" % {k: sorted(v) for k, v in order_ids.items()},
+               {"plan": "two orders, three phases"}, "report_fabrication")
+    return 1
+
+
 def check_report(sch, o, m, os_, order_id_before, seen_exec):
     bad = []
     try:
@@ -325,10 +358,11 @@ def snap(ci, ca):
             int(ca._connection_state), ca._session.next_num_in, ca._session.next_num_out)
 
 
-async def run_with_tester(script):
+async def run_with_tester(script, counters=(1, 1)):
     ci = mk_conn(AsyncFIXConnection, "INIT", "ACPT")
     ci._connection_state = ConnectionState.NETWORK_CONN_ESTABLISHED
     ci._socket_reader = object()
+    ci._session.next_num_in, ci._session.next_num_out = counters  # (a resumed session: the journal's counters)
     ft = FIXTester(None, ci)
     ca = ft.conn_accept
     ca._socket_reader = object()
@@ -368,7 +402,7 @@ async def feed(conn, data):
     conn._socket_reader = object() if conn._socket_writer is not None else conn._socket_reader
 
 
-async def run_with_real(script):
+async def run_with_real(script, counters=(1, 1)):
     ci = mk_conn(AsyncFIXConnection, "INIT", "ACPT")
     ca = mk_conn(AsyncFIXDummyServer, "ACPT", "INIT")
     i2a, a2i, snaps = [], [], []
@@ -379,6 +413,8 @@ async def run_with_real(script):
     ca._socket_reader = object()
     ci._connection_state = ConnectionState.NETWORK_CONN_ESTABLISHED
     ca._connection_state = ConnectionState.NETWORK_CONN_ESTABLISHED
+    ci._session.next_num_in, ci._session.next_num_out = counters
+    ca._session.next_num_out, ca._session.next_num_in = counters  # the peer's journal holds the mirror image
 
     async def pump():
         for _ in range(20):
@@ -414,16 +450,17 @@ def fidelity(params, viol):
     scripts = []
     for k in range(L + 1):
         scripts += list(itertools.product(ACTIONS, repeat=k))
-    for sc in scripts:
+    runs = [(sc, (1, 1)) for sc in scripts] + [(sc, (4, 7)) for sc in scripts if len(sc) <= 1]
+    for sc, counters in runs:
         n += 1
-        case = {"script": list(sc)}
+        case = {"script": list(sc), "initiator_counters_in_out": list(counters)}
         try:
-            t = asyncio.run(run_with_tester(sc))
+            t = asyncio.run(run_with_tester(sc, counters))
         except BaseException as e:  # noqa
             record(viol, "the script against the helper raised %s: %s" % (type(e).__name__, str(e)[:100]), case, "fidelity")
             continue
         try:
-            r = asyncio.run(run_with_real(sc))
+            r = asyncio.run(run_with_real(sc, counters))
         except BaseException as e:  # noqa
             record(viol, "HARNESS: the script against the real acceptor raised %s: %s" % (type(e).__name__, str(e)[:100]), case, "fidelity")
             continue
@@ -444,6 +481,7 @@ def run(params):
     parts = params.get("parts", ["reports", "session", "fidelity"])
     if "reports" in parts:
         n += reports(params, rnd, viol)
+        n += ids_across_phases(viol)
     if "session" in parts:
         n += session_msgs(viol)
     if "fidelity" in parts:
